@@ -3635,6 +3635,8 @@ class __implementations__:
         array = Array.cast(a)
         if side not in ('left', 'right'):
             raise ValueError(f'expected "left" or "right", got {side}')
+        if array.ndim != 1:
+            raise ValueError('the sorted array must be one-dimensional')
         if sorter is not None:
             sorter = Array.cast(sorter)
             if sorter.shape != array.shape or sorter.dtype != int:
